@@ -2,7 +2,7 @@
 import gin
 from vf import rt
 from vf import world
-from vf.harness.c08 import spec_matching
+from vf.spec.selmap import spec_matching
 
 # statement kinds of the macro harness
 ORDERS = [
